@@ -67,6 +67,8 @@ type Unit struct {
 	exact    bool
 	obls     []*Oblig
 	oblNames map[string]int
+	backpat  bool // opt backpatterns
+	ghints   bool // opt groundhints
 	// AssumedLabels: clause labels used as hypotheses without an obligation in this unit (AssumeGroups)
 	AssumedLabels map[string]bool
 	assumptions map[string]bool // textual assumptions used (reported in evidence)
@@ -504,6 +506,9 @@ func (u *Unit) oblige(st *State, kind, anchor string, goal T, human string) *Obl
 			// not prune that path here
 			return nil
 		}
+	}
+	if kind == "loopframe" && u.opts.SkipLoopFrame {
+		return nil
 	}
 	if (kind == "inv-init" || kind == "inv-step" || kind == "assert" || kind == "assert-noassume") && u.opts.assumedLabel(anchor) {
 		// proved in another unit of the plan (UnitOpts.AssumeGroups)
